@@ -62,15 +62,14 @@ Definition C12_undef_statement : Prop :=
   d_twp_undef (trs_to_dict None) = true /\ d_rge_undef (trs_to_dict None) = true /\
   d_sec_undef (trs_to_dict None) = true.
 
-(* strictness: the result is either the error TRS, or the input itself with the
-   direction letters lower-cased (plus the error section when none was given) --
-   never a different valid-looking Twp/Rge/Sec *)
-Definition lower_dirs (x : str) : str := lower x.
+(* strictness: the result is either the error TRS, or the input itself, split into its three
+   components, with each component at most case-normalised (digits are never changed, dropped or
+   moved), a placeholder component kept as it is, and the error section supplied when none was given
+   -- never a different valid-looking Twp/Rge/Sec *)
 Definition C12_strict_statement : Prop :=
   forall x : str, x <> [] ->
     TRS_trs (Some x) = MC_ERR_TRS \/
-    (exists twp rge sec, x = twp ++ rge ++ sec /\
-       TRS_trs (Some x) = d_twp (trs_to_dict (Some x)) ++ d_rge (trs_to_dict (Some x))
-                          ++ (match sec with [] => MC_ERR_SEC | _ => sec end) /\
-       (d_twp (trs_to_dict (Some x)) = lower twp \/ d_twp (trs_to_dict (Some x)) = MC_ERR_TWP /\ twp = MC_ERR_TWP) /\
-       (d_rge (trs_to_dict (Some x)) = lower rge \/ d_rge (trs_to_dict (Some x)) = MC_ERR_RGE /\ rge = MC_ERR_RGE)).
+    exists a b c na nb nc, x = a ++ b ++ c /\ TRS_trs (Some x) = na ++ nb ++ nc /\
+      (na = lower a \/ (na = a /\ (a = MC_ERR_TWP \/ a = MC_UNDEF_TWP))) /\
+      (nb = lower b \/ (nb = b /\ (b = MC_ERR_RGE \/ b = MC_UNDEF_RGE))) /\
+      (nc = c \/ (c = [] /\ nc = MC_ERR_SEC)).
